@@ -120,5 +120,42 @@ META["C06"] = {
     "technique": "Lean 4 pair invariant over arbitrary schedules + completion theorem; lock-step differential correspondence",
 }
 
+_HUB_NOTE = _NOTE + (" The select skeleton (which cases each select offers, what CloseWithError(nil) stores) is regenerated from "
+                      "hubs.go/queue.go by go/ast on every run; the function shapes are fixed by hand. Promptness is enabledness, not seconds.")
+META["C13"] = {
+    "text": "Proof over the TellHub/AskHub labelled transition systems (any number of receivers and producers, any interleaving, "
+            "cancels and close anywhere): each message enters at most one callback, Deliver returns success only after that "
+            "callback finished (with its result) and an error only if no callback saw the message, a cancelled participant's "
+            "return is always enabled and cancelling a receiver changes no deliverer; the bounded queue conserves its slots, is "
+            "FIFO and loses nothing on cancel. The skeleton obligation re-checks the select cases read from the source.",
+    "design_ref": "DESIGN.md section 5 C13", "note": _HUB_NOTE,
+    "technique": "Lean 4 inductive invariant over LTS runs, parametric in a select skeleton regenerated from the Go AST; scripted and racing correspondence on the real hubs",
+}
+META["C12"] = {
+    "text": "Proof over the same transition systems: after close every parked Receive/ServeAsk/Deliver has its closed-return "
+            "enabled and it yields a non-nil error, a parked receiver with nothing else to do can only return, calls started "
+            "after close fail at their closed check, no participant ever returns nil on a closed hub, no rendezvous is enabled "
+            "once the parked calls have left, close is idempotent, a closed queue stays closed and empty. Stack-level Close and "
+            "goroutine release on real swarms are exercised by the oracle as exploration.",
+    "design_ref": "DESIGN.md section 5 C12", "note": _HUB_NOTE,
+    "technique": "Lean 4 enabledness and invariant theorems over the hub/queue LTS with regenerated select skeleton; correspondence on the real hubs",
+}
+META["C11"] = {
+    "text": "Proof: through the ask hub a successful ask returns exactly the value the handler produced for that request, for any "
+            "number of outstanding asks and any interleaving; a failed one was never seen by a handler; a closed hub yields an "
+            "error; a response longer than the caller's buffer is an error, not a truncation; quicswarm frames round-trip; a "
+            "negative handler result travels as a non-zero error code. Real AskHub scenarios and racing asks are compared/checked each run.",
+    "design_ref": "DESIGN.md section 5 C11", "note": _HUB_NOTE,
+    "technique": "Lean 4 invariant over the AskHub LTS + framing/completion theorems; correspondence and racing oracle on real hubs and ask-capable swarms",
+}
+META["C14"] = {
+    "text": "Partial by design: buffer ownership is proved (a slot lent to a callback is in no other place; a recycled slot shows "
+            "exactly the enqueued message; a hub's deliverer stays committed while its message is in a callback). Freedom from data "
+            "races under the Go memory model is not expressible in these models and is NOT claimed; a -race contention run is "
+            "reported as exploration in the evidence.",
+    "design_ref": "DESIGN.md section 5 C14 and section 6", "note": _HUB_NOTE,
+    "technique": "Lean 4 slot-conservation / exclusivity invariants over queue and hub models; contention stress as exploration",
+}
+
 _PENDING = "check under construction in this build round; will be claimed once its model, theorems and correspondence stream pass on the unchanged tree"
 NOT_APPLICABLE = {("C%02d" % i): _PENDING for i in range(1, 21)}
